@@ -55,4 +55,12 @@ Definition blob_eqb (a b : blob_type) : bool :=
   match a, b with Tree, Tree | Data, Data => true | _, _ => false end.
 Record index_entry := mkie { ie_sec : index_section; ie_id : id; ie_blob : blob_type }.
 
+(* warm-up call sites (restore, prune repack, repair index): the two phases of a command's read part,
+   which set expression is handed to warm_up_wait, what the prune planner can decide for a pack, and
+   what `RepositoryOptions::warm_up` (WarmUpAccessBackend) is wrapped around *)
+Inductive phase := PhWarm | PhRead.
+Inductive warm_set := WsToPacks | WsRepackPacks | WsPackReadHeader | WsNone.
+Inductive todo := Undecided | Keep | Repack | MarkDelete | KeepMarked | KeepMarkedAndCorrect | Recover | Delete.
+Inductive wrap_target := WrapsCold | WrapsHotCold.
+
 Definition isSome {A} (o : option A) : bool := match o with Some _ => true | None => false end.
